@@ -70,6 +70,16 @@ def _set_clock(t):
     _TSIGCLOCK.offset = float(t) - 1000.0
 
 
+def _worlds():
+    """sync code, async twins on asyncio, async twins on trio (when trio is installed)."""
+    from simkit import netsim
+
+    if netsim.have_trio():
+        netsim.install_trio_seam()
+        return ("sync", "async", "trio")
+    return ("sync", "async")
+
+
 def setup():
     global _d
     import dns
@@ -728,7 +738,7 @@ def _scenario_net(case, res, log):
     use_tcp = case["nenv"] % 2 == 0
     ignore_errors = case["edns"] and not use_tcp
     outs = {}
-    for world in ("sync", "async"):
+    for world in _worlds():
         net = netsim.reset_network()
         _set_clock(case["time"])
         q = _query(case)
@@ -756,14 +766,14 @@ def _scenario_net(case, res, log):
             else:
                 import dns.asyncbackend
 
-                backend = dns.asyncbackend.get_backend("asyncio")
+                backend = dns.asyncbackend.get_backend("trio" if world == "trio" else "asyncio")
 
                 async def go():
                     if use_tcp:
                         return await dns.asyncquery.tcp(q, "10.0.0.1", timeout=2.0, backend=backend)
                     return await dns.asyncquery.udp(q, "10.0.0.1", timeout=2.0, ignore_errors=ignore_errors, backend=backend)
 
-                r, exc = netsim.run_async(go, net)
+                r, exc = (netsim.run_trio if world == "trio" else netsim.run_async)(go, net)
                 if exc is not None:
                     raise exc
             out = ("ok", r)
@@ -797,8 +807,10 @@ def _scenario_net(case, res, log):
             outs[world] = "exc:" + out[1]
             res.probes.inc("net_tampered_reply_not_returned")
         res.sim_seconds += VT.elapsed()
-    if outs.get("sync") != outs.get("async"):
-        raise Violation("C14:sync-async-differ", f"net tsig: sync {outs.get('sync')} async {outs.get('async')} tamper={tamper} tcp={use_tcp} ignore_errors={ignore_errors}")
+    if len(set(outs.values())) > 1:
+        raise Violation("C14:sync-async-differ", f"net tsig: {sorted(outs.items())} tamper={tamper} tcp={use_tcp} ignore_errors={ignore_errors}")
+    if "trio" in outs:
+        res.probes.inc("trio_backend_exchange")
     if tamper:
         res.faults.inc("net_tampered_reply")
     log.add("net", alg, use_tcp, tamper, outs.get("sync"))
@@ -823,7 +835,7 @@ def _scenario_xfr(case, res, log):
     n = max(2, case["nenv"])
     fault = case["envfault"]
     outs = {}
-    for world in ("sync", "async"):
+    for world in _worlds():
         net = netsim.reset_network()
         _set_clock(case["time"])
         b = Z.Bench(["plain", "versioned", "btree"][case["nrr"] % 3], case["edns"])
@@ -888,12 +900,12 @@ def _scenario_xfr(case, res, log):
             else:
                 import dns.asyncbackend
 
-                backend = dns.asyncbackend.get_backend("asyncio")
+                backend = dns.asyncbackend.get_backend("trio" if world == "trio" else "asyncio")
 
                 async def go():
                     await dns.asyncquery.inbound_xfr("10.0.0.1", b.zone, q, timeout=3.0, lifetime=8.0, backend=backend)
 
-                _, exc = netsim.run_async(go, net)
+                _, exc = (netsim.run_trio if world == "trio" else netsim.run_async)(go, net)
         except Exception as e:  # noqa: BLE001
             exc = e
         after = b.snap_nodes()
@@ -913,8 +925,10 @@ def _scenario_xfr(case, res, log):
             res.probes.inc("envelope_fault_detected")
         outs[world] = type(exc).__name__ if exc else "ok"
         res.sim_seconds += VT.elapsed()
-    if outs["sync"] != outs["async"]:
-        raise Violation("C14:sync-async-differ", f"xfr tsig: sync {outs['sync']} async {outs['async']} fault={fault}")
+    if len(set(outs.values())) > 1:
+        raise Violation("C14:sync-async-differ", f"xfr tsig: {sorted(outs.items())} fault={fault}")
+    if "trio" in outs:
+        res.probes.inc("trio_backend_exchange")
     log.add("xfr", alg, n, fault, outs["sync"])
 
 
